@@ -139,6 +139,10 @@ def run(ctx):
         raise CheckFailure('corr', 'implementation produced %d lines for %d cases' % (len(impl), len(lines)))
     classes = {}
     for (strat, rs), out, line in zip(cases, impl, lines):
+        if '!iterator-kind' in out or '!shared-pamap' in out:
+            ctx.violation('the selection depends on how the candidates are handed in (an iterator of unknown length / routes sharing one PaMap), not on the candidates',
+                          case=line, impl=out)
+            continue
         check_case(ctx, strat, rs, out, line)
         if len(ctx.violations) > 10:
             break
